@@ -2,7 +2,7 @@
 
 Oracle: the explicit loop 'rows with more than j elements'."""
 import numpy as np
-from ..core import CTX, attempt, held, violated, undefined, same_array, peek, short, lists_same
+from ..core import CTX, attempt, held, violated, undefined, same_array, same_dtype, peek, short, lists_same
 from .. import gen, contracts
 from . import c02
 
@@ -79,13 +79,18 @@ def run(case):
     before = peek(ra)
     desc = "%s%s of %s rows %s [%s receiver]" % (op, "(%d)" % j if op == "getcol" else "", dt, short([r.tolist() for r in rows], 200), recv)
     if op in ("sum0", "np.sum0"):
-        exp = np.array([(int(np.sum(np.array(c, dtype=bool))) if dt.kind == "b" else (sum(int(x) for x in c) if dt.kind in "iu" else float(np.sum(np.array(c, dtype=np.float64))))) for c in cols])
+        if dt.kind == "c" or (dt.kind == "f" and dt.itemsize > 8):
+            exp = np.array([np.sum(np.array(c, dtype=dt)) for c in cols], dtype=dt)      # complex / extended precision: added in the element type itself
+        else:
+            exp = np.array([(int(np.sum(np.array(c, dtype=bool))) if dt.kind == "b" else (sum(int(x) for x in c) if dt.kind in "iu" else float(np.sum(np.array(c, dtype=np.float64))))) for c in cols])
         ax = axis_of(case)
         a = attempt(lambda: ra.sum(axis=ax) if op == "sum0" else (np.sum(ra, axis=ax) if j % 2 == 0 else np.sum(ra, ax)))
     elif op in ("mean0", "np.mean0"):
-        exp = np.array([float(np.mean(np.array(c, dtype=np.float64))) for c in cols])
         ax = axis_of(case)
-        exp = np.array([float(np.mean(np.array(c, dtype=np.float64))) for c in cols])
+        if dt.kind == "c" or (dt.kind == "f" and dt.itemsize > 8):
+            exp = np.array([np.mean(np.array(c, dtype=dt)) for c in cols], dtype=dt)
+        else:
+            exp = np.array([float(np.mean(np.array(c, dtype=np.float64))) for c in cols])
         a = attempt(lambda: ra.mean(axis=ax) if op == "mean0" else (np.mean(ra, axis=ax) if j % 2 == 0 else np.mean(ra, ax)))
     elif op == "col_counts":
         exp = np.array([len(c) for c in cols])
@@ -110,7 +115,10 @@ def run(case):
         return violated("%s returned %s" % (desc, short(g)), tags)
     if g.shape != exp.shape:
         return violated("%s has %d entries, expected %d (longest row)" % (desc, len(g), len(exp)), tags, got=g, expected=exp)
-    if case.get("vclass") == "bigfloat" and op.endswith("mean0"):
+    if (dt.kind == "c" or (dt.kind == "f" and dt.itemsize > 8)) and op != "getcol" and op != "col_counts":
+        wide_ = np.clongdouble if dt.kind == "c" else np.longdouble
+        ok = same_dtype(g.dtype, dt) and bool(np.allclose(g.astype(wide_), exp.astype(wide_), rtol=1e-6 if dt.itemsize == 8 and dt.kind == "c" else 1e-12, atol=0, equal_nan=True))
+    elif case.get("vclass") == "bigfloat" and op.endswith("mean0"):
         # the element type can hold every element and every column mean, but not the column total: the mean must still be finite
         ok = bool(np.all(np.isfinite(g.astype(np.float64)))) and np.allclose(g.astype(np.float64), exp, rtol=1e-3 if dt.itemsize == 2 else 1e-6, atol=0)
     elif case.get("vclass") == "bigfloat" and op != "getcol" and op != "col_counts":
@@ -277,6 +285,11 @@ def directed():
         c = mk_case(lens_, "int32", [(i * 7) % 50 for i in range(sum(lens_))], "getcol", jmax, "fresh", "small")
         c["jtype"] = jt_
         yield c
+    # complex and extended-precision elements
+    for dtype_ in gen.DT_EXOTIC:
+        for lens_ in ([2, 0, 3, 1], [4], [1, 5, 0, 2]):
+            for op_ in OPS:
+                yield gen_case(rng, lens_, dtype_, op_)
     # tall: thousands of rows reach a column -- more than a narrow or low-precision element type can count exactly (float16: 2048, int8: 127)
     for nrows in (2051, 4100, 70001):
         lens_ = [(2 if i % 3 else 1) for i in range(nrows)]
@@ -333,7 +346,7 @@ def random_case(rng, tier):
             break
     else:
         lens = [1, 0, 2]
-    dtype = rng.choice(gen.DT_ALL)
+    dtype = rng.choice(gen.DT_ALL) if rng.random() < 0.9 else rng.choice(gen.DT_EXOTIC)
     recv = rng.choice(c02.RECVS) if rng.random() < 0.4 else "fresh"
     return gen_case(rng, lens, dtype, None, recv, rng.choice(["small", "medium", "huge", "bigfloat", "nonfinite", "mostlyzero"]))
 
